@@ -12,6 +12,7 @@ import (
 
 	"diagonal.works/b6"
 	"diagonal.works/b6/ingest"
+	"diagonal.works/b6/ingest/compact"
 	"verif/harness/obs"
 	"verif/harness/vh"
 )
@@ -110,6 +111,17 @@ func buildWorld(impl string, base obs.AWorld) (ingest.MutableWorld, error) {
 		// everything lives in the overlay's own maps
 		w := ingest.NewMutableOverlayWorld(b6.EmptyWorld{})
 		return w, addAll(w, base)
+	case "overlay-compact":
+		// the base is a compact index (built once per worker process and base, then loaded per case)
+		data, err := cachedCompact(base)
+		if err != nil {
+			return nil, err
+		}
+		cw, err := compact.NewWorldFromData(data)
+		if err != nil {
+			return nil, err
+		}
+		return ingest.NewMutableOverlayWorld(cw), nil
 	case "tagsoverlay":
 		// MutableTagsOverlayWorld only supports AddTag and Snapshot (its search index is documented as not updated):
 		// it takes part in the snapshot property only, on histories of those two operations
@@ -128,6 +140,21 @@ func buildWorld(impl string, base obs.AWorld) (ingest.MutableWorld, error) {
 		return ingest.NewMutableOverlayWorld(mid), nil
 	}
 	return nil, fmt.Errorf("unknown impl %q", impl)
+}
+
+var compactCache = map[string][]byte{}
+
+func cachedCompact(base obs.AWorld) ([]byte, error) {
+	key := obs.Canon(base)
+	if d, ok := compactCache[key]; ok {
+		return d, nil
+	}
+	d, err := buildCompact(features(base, true, nil), 2, nil)
+	if err != nil {
+		return nil, err
+	}
+	compactCache[key] = d
+	return d, nil
 }
 
 // tagsWorld adapts MutableTagsOverlayWorld to the MutableWorld interface for the operations it has.
